@@ -146,6 +146,7 @@ class C10(Check):
         if tier != 'quick':
             js.append(dict(kind='select', net='road', idx='r51', radius=5.5, T=1))
             js.append(dict(kind='select', net='grid', idx='coarse', radius=6.0, T=1))
+        js.sort(key=lambda j: 0 if j['net'] in ('grid', 'road') else 1)      # scale probes first: the thorough tier may run into its budget on the catalogue networks
         return js
 
     def patches(self, job):
